@@ -18,6 +18,8 @@ RULE = ("every arrangement of up to K lines, each one of {plain, DDBEGIN, DDEND,
 KIND_TEXT = {
     "p": b"ab", "B": b"DDBEGIN", "E": b"DDEND", "BE": b"// DDBEGIN DDEND", "EB": b"DDEND-DDBEGIN",
     "xBx": b"\"a DDBEGIN';", "xEx": b"<DDEND a=1>",
+    # marker lines that are not valid UTF-8 (latin-1 comments, stray bytes): bytes are bytes, also in an error message
+    "Bx": b"// d\xe9but DDBEGIN", "Ex": b"\xffDDEND\x80",
 }
 TERMS = (b"\n", b"\r\n", b"\r")
 XTERMS = TERMS + (b"\x0b", b"\x0c", b"\x1c", b"\xc2\x85", b"\xe2\x80\xa8")
@@ -109,7 +111,8 @@ def error_path(ctx, count):
         "import pathlib\n"
         "def init(a): pathlib.Path(__file__).with_name('CALLED').write_text('init')\n"
         "def interesting(a, p):\n    pathlib.Path(__file__).with_name('CALLED').write_text('x'); return True\n")
-    files = [b"DDEND\nx\n", b"a\nDDBEGIN\nb\n", b"x DDEND\nDDBEGIN\ny\nDDEND\n", b"DDBEGIN DDEND\nq\n"]
+    files = [b"DDEND\nx\n", b"a\nDDBEGIN\nb\n", b"x DDEND\nDDBEGIN\ny\nDDEND\n", b"DDBEGIN DDEND\nq\n",
+             b"\xffDDEND\nx\n", b"a\n// d\xe9but DDBEGIN\nb\n"]
     cwd = os.getcwd()
     os.chdir(d)
     try:
